@@ -11,9 +11,11 @@ package main
 // (a subtraction or division makes the job fail => broken tie), values are lengths/offsets (non-negative).
 
 import (
+	"bytes"
 	"fmt"
 	"go/ast"
 	"go/constant"
+	"go/printer"
 	"go/token"
 	"os"
 	"path/filepath"
@@ -586,11 +588,70 @@ func genFrameLen() (string, error) {
 		o.fnSub("h2_incomplete", "mhttp2.go ReadFrame: payload not buffered yet (ErrAGAIN); the subtraction is exact: readFrameHeader has checked dataLen ≥ off+frameHeaderLen", []string{"length", "dataLen", "off"}, "Bool", incomplete, env)
 		o.fn("h2_size", "mhttp2.go ReadFrame: size of one frame", []string{"length"}, "Nat", ff.assign["size"], env)
 		o.fn("h2_drains", "mhttp2.go ReadFrame: this frame type drains the buffer itself (CONTINUATION is drained by its HEADERS)", []string{"ty"}, "Bool", notCont, env)
-		if len(ff.drains) != 1 {
-			o.fail("http2 ReadFrame: expected exactly one Drain call")
-		} else {
-			o.fn("h2_drain", "mhttp2.go ReadFrame: argument of data.Drain", []string{"size", "msize"}, "Nat", ff.drains[0], env)
+		// the Drain of a decoded frame is the body of the top-level `if fh.Type != FrameContinuation`; every other Drain
+		// must consume a frame that answered a StreamError at offset 0 (`if _, ok := err.(StreamError); ok && off == 0`):
+		// the single frame (argument = the `size` expression) after its payload parser, the whole HEADERS+CONTINUATION
+		// group (argument = the argument of the success Drain) after readMetaFrame
+		var okDrain ast.Expr
+		errDrains := 0
+		var badDrain string
+		var walkDrains func(n ast.Node, guard string, top bool)
+		walkDrains = func(n ast.Node, guard string, top bool) {
+			ast.Inspect(n, func(m ast.Node) bool {
+				switch x := m.(type) {
+				case *ast.IfStmt:
+					if m == n {
+						return true
+					}
+					g := ""
+					if x.Init != nil {
+						g = c08fSrc(x.Init) + "; "
+					}
+					g += c08fSrc(x.Cond)
+					walkDrains(x.Body, g, false)
+					if x.Else != nil {
+						walkDrains(x.Else, "else", false)
+					}
+					return false
+				case *ast.CallExpr:
+					if sel, ok := x.Fun.(*ast.SelectorExpr); ok && sel.Sel.Name == "Drain" && len(x.Args) == 1 {
+						arg := c08fSrc(x.Args[0])
+						switch {
+						case guard == "fh.Type != FrameContinuation":
+							if okDrain != nil {
+								badDrain = "two Drain calls under `fh.Type != FrameContinuation`"
+							}
+							okDrain = x.Args[0]
+						case guard == "_, ok := err.(StreamError); ok && off == 0":
+							errDrains++
+							if arg != c08fSrc(ff.assign["size"]) && arg != "size + msize" {
+								badDrain = "stream-error Drain of " + arg + " (expected the frame size or size + msize)"
+							}
+						default:
+							badDrain = "Drain under unrecognised condition `" + guard + "`"
+						}
+					}
+				}
+				return true
+			})
 		}
+		walkDrains(fd.Body, "", true)
+		if badDrain != "" {
+			o.fail("http2 ReadFrame: %s", badDrain)
+		}
+		if okDrain == nil {
+			o.fail("http2 ReadFrame: Drain of the decoded frame not found")
+		} else {
+			o.fn("h2_drain", "mhttp2.go ReadFrame: argument of data.Drain", []string{"size", "msize"}, "Nat", okDrain, env)
+			if c08fSrc(okDrain) != "size + msize" && errDrains > 0 {
+				o.fail("http2 ReadFrame: the success Drain is not size + msize")
+			}
+		}
+		if errDrains != 0 && errDrains != 2 {
+			o.fail("http2 ReadFrame: %d stream-error Drain calls (expected none or the two: payload parser, readMetaFrame)", errDrains)
+		}
+		fmt.Fprintf(&o.sb, "/-- mhttp2.go ReadFrame: a frame / HEADERS+CONTINUATION group that answers a StreamError at offset 0 is consumed\n(`if _, ok := err.(StreamError); ok && off == 0 { data.Drain(…) }`, the frame size resp. size + msize) -/\ndef h2_streamErrDrains : Bool := %v\n", errDrains == 2)
+		o.names = append(o.names, "h2_streamErrDrains")
 	}
 	if len(o.errs) > 0 {
 		return "", fmt.Errorf("%s", strings.Join(o.errs, "; "))
@@ -870,4 +931,17 @@ func tarsVersionCond(e ast.Expr, env *Env) (string, error) {
 func isLenCall(e ast.Expr) bool {
 	c, ok := e.(*ast.CallExpr)
 	return ok && exprKey(c.Fun) == "len" && len(c.Args) == 1
+}
+
+// c08fSrc prints a node on one line (used to compare Drain arguments / guards of MFramer.ReadFrame textually).
+func c08fSrc(n ast.Node) string {
+	if n == nil {
+		return ""
+	}
+	if e, ok := n.(ast.Expr); ok && e == nil {
+		return ""
+	}
+	var b bytes.Buffer
+	printer.Fprint(&b, fset, n)
+	return strings.Join(strings.Fields(b.String()), " ")
 }
